@@ -151,13 +151,22 @@ func c11rErr(err error, cancelled bool) string {
 		return "ok"
 	case cancelled || errors.Is(err, context.Canceled) || errors.Is(err, context.DeadlineExceeded):
 		return "limit-timeout"
-	case strings.Contains(err.Error(), "bucket set is full"):
+	case c11rChain(err, "bucket set is full"):
 		return "limit-full"
 	case strings.Contains(err.Error(), "c11: sender refused"):
 		return "mail-rejected"
 	default:
 		return "other-error"
 	}
+}
+
+func c11rChain(err error, what string) bool {
+	for e := err; e != nil; e = errors.Unwrap(e) {
+		if strings.Contains(e.Error(), what) {
+			return true
+		}
+	}
+	return false
 }
 
 func (c *c11RemCase) exec(op string) bool {
